@@ -1,2 +1,6 @@
-// Package c18 holds the scenario family of property C18.
+// Package c18 holds the scenario family of property C18 (outbound packets
+// never exceed the configured maximum size): a whole-system simulation with
+// wire taps on every UDP datagram and every interleaved frame leaving a
+// library endpoint, writes swept around the limit through every entry point,
+// and Start() validation.
 package c18
